@@ -16,6 +16,11 @@
 //     -> a<count>  |  p:<count>:<sumbits>:<scount>:<minbits>:<maxbits>:<q,q,..>      (one token per op)
 //        quantiles 0, 0.5, 0.9, 0.99, 1 as rendered by the exporter: snapshot.quantile(q).unwrap_or(0.0)
 //
+//  V <bucket_count> <dur_ns> | A<t>:<vhex> P<t> ...   the same operations through the exporter: PrometheusBuilder
+//        (set_bucket_count / set_bucket_duration / set_quantiles) + build_recorder under quanta::with_clock(mock):
+//        A = set the clock, histogram!("s").record(v);  P = set the clock, handle.render()
+//     -> k  |  r:<_count>:<_sum bits>:<q,q,..>      (one token per op; the rendered lines parsed back)
+//
 //  Q <qhex>                         metrics_util::parse_quantiles(&[q])[0]
 //     -> <valuebits> <labelhex> <fchex> <fdhex>   value(), label(), and Display of value / value*100 (the
 //        formatting oracle the model is given; computed here with the same expressions as quantile.rs)
@@ -193,6 +198,62 @@ fn roll_case(rest: &str) -> String {
     out.join(" ")
 }
 
+fn render_case(rest: &str) -> String {
+    let (head, ops) = rest.split_once('|').unwrap();
+    let mut hs = head.split_whitespace();
+    let n: u32 = hs.next().unwrap().parse().unwrap();
+    let dur: u64 = hs.next().unwrap().parse().unwrap();
+    let (clock, mock) = quanta::Clock::mock();
+    let rec = PrometheusBuilder::new()
+        .set_quantiles(&[0.0, 0.5, 0.9, 0.99, 1.0]).unwrap()
+        .set_bucket_count(NonZeroU32::new(n).unwrap())
+        .set_bucket_duration(Duration::from_nanos(dur)).unwrap()
+        .build_recorder();
+    let handle = rec.handle();
+    let set = |t: u64| {
+        let cur = mock.value();
+        if t >= cur { mock.increment(t - cur) } else { mock.decrement(cur - t) }
+    };
+    // Instant::now() inside the recorder (sample timestamps) and inside render (snapshot time) read the mock clock
+    quanta::with_clock(&clock, || {
+        let mut out: Vec<String> = Vec::new();
+        for tok in ops.split_whitespace() {
+            let (c, r) = tok.split_at(1);
+            match c {
+                "A" => {
+                    let (t, v) = r.split_once(':').unwrap();
+                    set(t.parse().unwrap());
+                    let v = f(v);
+                    metrics::with_local_recorder(&rec, || { metrics::histogram!("s").record(v); });
+                    out.push("k".into());
+                }
+                "P" => {
+                    set(r.parse().unwrap());
+                    let text = handle.render();
+                    let (mut ty, mut sum, mut count) = (String::new(), None, None);
+                    let mut qs: Vec<f64> = Vec::new();
+                    let mut other = false;
+                    for line in text.lines() {
+                        if let Some(t) = line.strip_prefix("# TYPE s ") { ty = t.to_string(); }
+                        else if line.starts_with('#') || line.is_empty() {}
+                        else if let Some(v) = line.strip_prefix("s_sum ") { sum = v.parse::<f64>().ok(); }
+                        else if let Some(v) = line.strip_prefix("s_count ") { count = v.parse::<u64>().ok(); }
+                        else if line.starts_with("s{quantile=\"") { qs.push(line.rsplit(' ').next().unwrap().parse::<f64>().unwrap()); }
+                        else { other = true; }
+                    }
+                    match (sum, count) {
+                        (Some(sm), Some(c)) if ty == "summary" && !other && qs.len() == 5 =>
+                            out.push(format!("r:{}:{}:{}", c, bits(sm), blist(&qs))),
+                        _ => return format!("panic:unexpected rendering {}", text.replace('\n', "\\n")),
+                    }
+                }
+                _ => panic!("bad op {}", tok),
+            }
+        }
+        out.join(" ")
+    })
+}
+
 fn hexs(s: &str) -> String {
     if s.is_empty() { "-".to_string() } else { s.bytes().map(|b| format!("{:02x}", b)).collect() }
 }
@@ -211,6 +272,7 @@ fn run_case(line: &str) -> String {
         "D" => dist_case(rest),
         "R" => roll_case(rest),
         "Q" => quant_case(rest),
+        "V" => render_case(rest),
         _ => panic!("bad case kind"),
     }
 }
